@@ -181,7 +181,7 @@ def _dump(path):
 
 PARTS = [
     Part('references', check, strategy=lambda tier: cases(tier),
-         budget={'quick': 3, 'thorough': 20},
+         budget={'quick': 3, 'thorough': 6},
          shards={'quick': 8, 'thorough': 16},
          describe='every level of the curve as reference, off-grid refusals'),
 ]
